@@ -60,6 +60,10 @@ CLAIMED = {
             "A parameter already suggested is reused before any sampling branch; fixed -> single -> relative -> independent; the returned local is what is stored (via to_internal_repr) and cached, with the store dominating cache update and return; suggest_int wraps in int and the front-ends build the distribution from their arguments; relative values are used only if contained; math.log/math.exp are applied under identical predicates and every non-single untransform branch reachable with transform_log=True is clip/min-bounded; isinstance dispatches are exhaustive. Decides the suggest protocol; does NOT decide that each sampler's independent sample lies in [low, high] / on the grid (numerical).",
             "Trusts to_internal_repr validation; sampler numerics are out of scope.",
             "DESIGN.md §3 C10"),
+    "C02": ("abstract interpretation over the CFG with typed exceptional edges: path-sensitive exploration of (node, structural value environment, stored flag, in-flight exception) with callee inlining and outcome summaries; sanitiser meaning proved by per-iteration dominance",
+            "From the statement after `trial = study.ask()` every exit of _run_trial (return or any propagating exception) is preceded by <storage>.set_trial_state_values, under an explicit raise model (objective / after_trial / callbacks raise anything; float, int, math.isnan, len, arithmetic, comparison, subscript on values derived from the objective's return value raise their exception classes; trusted internals do not); the feasibility check is total and its None result means every element went through float(), the NaN test and the count test; for all 48 combinations of tell() arguments only (COMPLETE, validated floats), (FAIL, None), (PRUNED, None | validated float) reach the store and a normal return always follows a store; tell stores only for RUNNING trials; non-caught exceptions are re-raised after the store; loop accounting of _optimize_sequential and the n_jobs branch. Exhaustive over abstract states (~640). Decides the finalisation-path obligation; not numeric equality of stored floats or exotic Sequence subclasses.",
+            "Raise model and total-by-assumption operations are listed in evidence; storage calls are assumed not to raise; a trial found not RUNNING after ask() is assumed already finished.",
+            "DESIGN.md §3 C02"),
 }
 
 NOT_APPLICABLE = {
